@@ -5,7 +5,7 @@ import vlib
 
 IIMPORTS = "From CRS Require Import Lib.Bytes Judge.Common Judge.C02In."
 ICLAUSES = {1: "a Ctrl+I / Tab insert did not reach the line channel as ONE intact line (split, altered, lost or duplicated)",
-            2: "lines entered faster than they were taken did not come out complete and in the order entered",
+            2: "lines entered did not come out as a gap-free, in-order run of what was entered (complete, when nothing stops the program)",
             11: "Judge/C02In.insert_lines differs from what Shell.insert sends"}
 
 
@@ -65,6 +65,10 @@ def operator_side(run):
     cases = [{"i": k, "mode": "insert", "size": n} for k, n in enumerate(sizes)]
     for n in ([200, 1024, 1025, 3000] if run.tier == "quick" else [200, 1024, 1025, 3000, 5000, 20000]):
         cases.append({"i": len(cases), "mode": "paste", "lines": n})
+    # a line which arrives inside bracketed-paste markers (the terminal was left in that mode): x/term hands it over together with ErrPasteIndicator.
+    # Whatever the program makes of that, what the shell's side of the line channel receives must stay a gap-free, in-order run of what was entered.
+    for n, at in ((6, 1), (6, 0), (40, 17), (3, 2)):
+        cases.append({"i": len(cases), "mode": "paste", "lines": n, "bracket": at})
     inf, outf = os.path.join(run.rundir, "input.in"), os.path.join(run.rundir, "input.out")
     with open(inf, "w") as f:
         for c in cases:
@@ -79,12 +83,15 @@ def operator_side(run):
     def term(c, r):
         if c["mode"] == "insert":
             return "mki false %d [%s] %s 0 true" % (c["size"], "; ".join(str(x) for x in r.get("items") or []), B_(r.get("concat_ok")))
+        if "bracket" in c:        # only order and gap-freeness are demanded: the run may stop at the bracketed line
+            return "mki true %d [] true %d %s" % (r.get("received", 0), r.get("received", 0), B_(r.get("first_out_of_order", 0) == -1))
         return "mki true %d [] true %d %s" % (c["lines"], r.get("received", 0), B_(r.get("first_out_of_order", 0) == -1))
     vlib.judge_stream(run, "operatorside", IIMPORTS, "icase", cases, res, term, ICLAUSES, (0,),
                       "operator side (lib/opshell): Ctrl+I inserts of 1 B ... 100000 B (thorough: 1 MiB) around io.Copy's 32 KiB buffer size, through the real "
                       "Shell.insert - exactly one intact line must reach the line channel; pastes of 200 - 3000 (thorough: 20000) lines through the real "
                       "Shell.Do while nobody takes lines for 400 ms (the 1024-deep channel fills) - all must come out, in order; non-trivial = above 32 KiB / "
-                      "above the channel's depth", key_fn=lambda c: json.dumps(c))
+                      "above the channel's depth; plus pastes in which one line arrives inside bracketed-paste markers (what comes out must be a gap-free in-order "
+                      "run, it may stop there)", key_fn=lambda c: json.dumps(c))
 
 
 CLAUSES = {2: "C02 monitor failed: lines taken from the operator are not a gap-free, duplicate-free, in-order run of the entered lines each followed by "
@@ -106,6 +113,16 @@ def scripts():
         ops.append({"op": "admit", "s": 2, "d": "in", "key": B.K(b"b"), "wk": wk, "wfail": -1, "ffail": -1})
         ops.append({"op": "line", "l": B.K(b"after")})
         out.append(ops)
+    # time passes while the input side is attached and the operator is quiet (seconds, minutes, an hour): the shell receives nothing nobody entered
+    for wk in B.WK:
+        for both in (False, True):
+            ops = [{"op": "admit", "s": 1, "d": "in", "key": B.K(b"a"), "wk": wk, "wfail": -1, "ffail": -1}]
+            if both:
+                ops.append({"op": "admit", "s": 2, "d": "out", "key": B.K(b"a")})
+            ops += [{"op": "sleep", "ms": 45000}, {"op": "line", "l": B.K(b"id")}, {"op": "sleep", "ms": 29000}, {"op": "sleep", "ms": 2000},
+                    {"op": "line", "l": B.K(b"whoami")}, {"op": "sleep", "ms": 3600000}, {"op": "line", "l": B.K(b"after an hour")},
+                    {"op": "sleep", "ms": 61000}, {"op": "release", "s": 1}]
+            out.append(ops)
     return out
 
 
